@@ -9,6 +9,8 @@ import Driver.ValidFam
 import Driver.StyleFam
 import Driver.TrimeshFam
 import Driver.PolyFam
+import Driver.SymFam
+import Driver.IfaceFam
 
 open Driver
 
@@ -33,6 +35,8 @@ def stepLine (st : St) (line : String) : St × String :=
   | "trimesh" :: _ => (st, TrimeshFam.step (line.drop 8).toString)
   | "poly" :: _ => (st, PolyFam.step (line.drop 5).toString)
   | "disp" :: _ => (st, DispFam.step (line.drop 5).toString)
+  | "sym" :: _ => (st, SymFam.step (line.drop 4).toString)
+  | "iface" :: _ => (st, IfaceFam.step (line.drop 6).toString)
   | _ => (st, "bad-family")
 
 partial def loop (h : IO.FS.Stream) (out : IO.FS.Stream) (st : St) : IO Unit := do
